@@ -545,3 +545,61 @@ class BroadcastArrays(Contract):
 
     def canaries(self, S, case, env, result):
         yield "first-result-is-empty", S.shape(result[0].values)[0] == 0
+
+
+class AxisSpellingNative(Contract):
+    """BOUNDED STAND-IN ONLY (never counted as proved).  "Dimensions may be referred to by name or by position interchangeably":
+    a position given as a NumPy integer (np.int64 / np.int32 -- what np.argsort, np.argmax, enumerate over an array hand out)
+    is the same position as the Python int, for reductions, cumulative functions, diff, arg-extrema, take_axis, sort_axis,
+    swapaxes, transpose, rollaxis, squeeze, newaxis positions and reindex_axis.  The symbolic engine's positions are its own
+    wrappers: a Python-level `type(axis) is int` test is invisible to it.  [C10, C08, C09]"""
+    target = "dimarray.core.bases:AbstractHasAxes._get_axis_info"
+    props = ("C10", "C08", "C09")
+    native_only = True
+
+    OPS = {
+        "mean": lambda a, p: a.mean(axis=p), "sum-skipna": lambda a, p: a.sum(axis=p, skipna=True), "median": lambda a, p: a.median(axis=p),
+        "cumsum": lambda a, p: a.cumsum(axis=p), "diff": lambda a, p: a.diff(axis=p), "argmax": lambda a, p: a.argmax(axis=p),
+        "take_axis": lambda a, p: a.take_axis([0], axis=p, indexing="position"), "sort_axis": lambda a, p: a.sort_axis(axis=p),
+        "swapaxes": lambda a, p: a.swapaxes(p, 0), "transpose": lambda a, p: a.transpose(p, *[type(p)(e) for e in range(a.ndim) if e != int(p)]),
+        "rollaxis": lambda a, p: a.rollaxis(p), "reindex_axis": lambda a, p: a.reindex_axis(a.axes[int(p)].values[::-1], axis=p),
+        "dropna": lambda a, p: a.dropna(axis=p, minvalid=0), "compress_axis": lambda a, p: a.compress_axis([True] * a.shape[int(p)], axis=p),
+        "take": lambda a, p: a.take(0, axis=p, indexing="position"), "interp_axis": lambda a, p: a.interp_axis(a.axes[int(p)].values, axis=p) if int(p) != 1 else a,
+    }
+
+    def cases(self, tier):
+        for op in self.OPS:
+            yield {"name": op, "op": op}
+
+    def setup(self, S, case):
+        arr, labels, data = make_dimarray(S, 3, kinds=("f", "O", "f"), attrs={"units": "K"})
+        for L in labels:
+            S.assume(S.n(L) >= 1, "non-empty")
+            S.assume(S.n(L) <= 2, "small (three dimensions)")
+        return {"arr": arr, "labels": labels, "data": data}
+
+    def call(self, fn, env):
+        return env["arr"]
+
+    def post(self, S, case, env, result):
+        import numpy as np
+        a = env["arr"]
+        f = self.OPS[case["op"]]
+
+        def norm(x):
+            if S.is_dimarray(x):
+                v = np.asarray(x.values)
+                return ("da", tuple(x.dims), [[repr(t) for t in list(ax.values)] for ax in x.axes], v.shape, [repr(t) for t in v.ravel().tolist()], sorted(dict(x.attrs).items()).__repr__())
+            return ("py", repr(x))
+
+        def run(p):
+            try:
+                return ("ok", norm(f(a, p)))
+            except Exception as e:
+                return ("raises", type(e).__name__)
+        ok = True
+        for p in range(3):
+            ref = run(p)
+            for t in (np.int64, np.int32, np.intp):
+                ok = ok and run(t(p)) == ref
+        yield "a-numpy-integer-position-is-that-position", ok
